@@ -119,15 +119,15 @@ def build_cases(ctx, n_stmts, muts, n_soups, n_gram=30):
             if not sp or len(sp) > 60:
                 continue
             for ty, a_, b_ in sp:
-                if ty in ('ID', 'DQUOTE_STRING'):       # the shortest spelling of a name in the cover sentences is "x"
+                if ty in ('ID', 'DQUOTE_STRING', 'PARAMETER'):       # the shortest spelling of a name in the cover sentences is "x" (mysql: ?)
                     subs_id += [(s_[:a_] + v_ + s_[b_:], d, 'path-substitution') for v_ in PATHS_]
                     subs_num += [(s_[:a_] + v_ + s_[b_:], d, 'number-substitution') for v_ in NUMS_[:3] + NUMS_[-1:]]
                 elif ty in ('INTEGER', 'FLOAT', 'VARIABLE', 'QUOTE_STRING'):   # ... and of a value is @x
                     subs_num += [(s_[:a_] + v_ + s_[b_:], d, 'number-substitution') for v_ in NUMS_]
-                    subs_id += [(s_[:a_] + v_ + s_[b_:], d, 'path-substitution') for v_ in PATHS_[:2]]
+                    subs_id += [(s_[:a_] + v_ + s_[b_:], d, 'path-substitution') for v_ in PATHS_]
         if n_stmts < 1000:      # quick tier: a seeded sample of the name positions, all number positions
             rng.shuffle(subs_id)
-            subs_id = subs_id[:6000 if d == 'mindsdb' else 1500]
+            subs_id = subs_id[:7000 if d == 'mindsdb' else 5000]
             rng.shuffle(subs_num)
             subs_num = subs_num[:8000 if d == 'mindsdb' else 3000]
         cases += subs_id + subs_num
@@ -163,6 +163,20 @@ def signature(ctx, sql, d, res):
     if fin.startswith('internal:'):
         return 'internal:%s:report:%s' % (cls, d)
     return '%s:%s' % (fin, d)
+
+
+def _outcome_only(args):
+    sql, d = args
+    from mindsdb_sql import parse_sql
+    from mindsdb_sql.exceptions import ParsingException
+    from mindsdb_sql.parser.ast.base import ASTNode
+    try:
+        r = parse_sql(sql, d)
+        return 'tree' if isinstance(r, ASTNode) else 'not-a-tree:%s' % type(r).__name__
+    except ParsingException:
+        return 'ParsingException'
+    except Exception as e:   # noqa
+        return ('LexError' if type(e).__name__ == 'LexError' else 'internal:%s:%s' % (type(e).__name__, str(e)[:100]))
 
 
 def _trace_one_c02(args):
@@ -201,6 +215,7 @@ def run(ctx):
     import subprocess
     from .common import PY, REPO, VERIF
     cases_long = []
+    cases_flat = []
     adv = []
     for q in ("'", '"', '`'):
         for unit in ('\\a', '\\\\', '\\' + q, q + q, 'a' + q + q):
@@ -212,6 +227,20 @@ def run(ctx):
                'select ' + 'a' * 20000, 'select `' + 'b' * 5000 + '`', 'select a from t where b in (' + ', '.join(['1'] * 500) + ')'):
         for d_ in DIALECTS:
             cases_long.append((s_, d_, 'long-literal'))
+    # long FLAT inputs (a few kilobytes): chains of one operator, lists, arms, joined tables -- the tree is deep or wide,
+    # the text is not nested
+    n_ = 1500
+    for s_ in ('select a from t where ' + ' or '.join(['a = 1'] * n_), 'select a from t where ' + ' and '.join(['b > 2'] * n_),
+               'select a from t group by a having ' + ' or '.join(['count(*) > 1'] * n_), 'delete from t where ' + ' and '.join(['a = 1'] * n_),
+               'select ' + ' + '.join(['1'] * n_), 'select ' + ' * '.join(['a'] * n_) + ' from t', "select " + " || ".join(["'x'"] * n_),
+               'select ' + ', '.join(['a'] * n_) + ' from t', 'select a from t where ' + 'not ' * 1200 + 'a = 1',
+               'select a from t where ' + '- ' * 1200 + 'a > 1', 'select case ' + ' '.join(['when a = 1 then 2'] * 600) + ' end from t',
+               ' union '.join(['select 1'] * 400), 'select * from t0 ' + ' '.join('join t%d on t%d.a = t0.a' % (i, i) for i in range(1, 300)),
+               'insert into t (a) values ' + ', '.join(['(1)'] * n_), 'select a from t order by ' + ', '.join(['a'] * n_),
+               'update t set ' + ', '.join('c%d = 1' % i for i in range(n_)), 'select f(' + ', '.join(['1'] * n_) + ')',
+               'select a from t where a = 1 ' + 'and (b = 2 or c = 3) ' * 700, 'select a.' + '.'.join(['b'] * 600) + ' from t'):
+        for d_ in DIALECTS:
+            cases_flat.append((s_, d_))
     for d in DIALECTS:
         code = ('import sys, json\nfrom mindsdb_sql import parse_sql\nfor s in json.loads(sys.stdin.read()):\n'
                 '    try:\n        parse_sql(s, %r)\n    except Exception:\n        pass\n    print("done", flush=True)\n' % d)
@@ -260,6 +289,13 @@ def run(ctx):
                         150 if thorough else 16)
     cases += cases_long
     all_cases = cases
+    # long flat inputs: outcome only (their driver traces would be tens of thousands of events each)
+    for (sql_, d_), fin_ in zip(cases_flat, pmap(_outcome_only, cases_flat, chunksize=1)):
+        if fin_.split(':')[0] not in ('tree', 'ParsingException', 'LexError'):
+            ctx.violation('internal:%s:long-flat-input:%s' % (fin_.split(':')[1] if ':' in fin_ else fin_, d_),
+                          'parse_sql ends in %s on a long but flat input (%d characters)' % (fin_[:120], len(sql_)),
+                          {'sql': sql_[:300] + ' ...', 'length': len(sql_), 'dialect': d_, 'kind': 'long-flat', 'final': fin_[:200]})
+    ctx.cov['long_flat_inputs'] = len(cases_flat)
     outcomes = {}
     n_valid = 0
     samples = []
